@@ -11,6 +11,10 @@ the database in a scripted order:
   F  fault: the instance with most running jobs is deactivated (real Instance.deactivate) and replaced by a fresh active one
   C<g>  the client cancels job group g (real cancel_job_group_in_db)
   P  a scheduler pass (as S) during which the first instance a job is POSTed to is preempted while the request is in flight
+  Q  a scheduler pass (as S) during which the worker's job_started report of the attempt being scheduled is processed while the POST is
+     in flight (real mark_job_started), before CALL schedule_job
+  J  job-private path for every runnable Ready job-private job: pending instance, real mark_job_creating, activate, schedule_job;
+     Jtimeout = the instance is deactivated (activation_timeout) while still pending, right after mark_job_creating
   X  a second attempt id of a Running job reports job_started from another instance (real mark_job_started): an orphan attempt for loop O
   L  late canceller message: real driver.job.unschedule_job for the attempt whose completion was reported last
 
@@ -75,6 +79,10 @@ class Actors:
         self.last_complete: Optional[Tuple] = None
         self.n_orphans = 0
         self.preempted_in_flight = 0
+        self.started_in_flight = 0
+        self.jp_timeouts = 0
+        self.jp_scheduled = 0
+        self.next_att = 500
         self.errors: List[str] = []
 
     def view(self) -> View:
@@ -159,6 +167,55 @@ class Actors:
                 self.next_inst += 1
                 w.apply(f'newInstance {self.next_inst} 4000 1')
                 w.apply(f'activate {self.next_inst}')
+        elif k == 'Q':
+            # one scheduler pass during which the worker's job_started report of the very attempt being scheduled is processed while
+            # driver.job.schedule_job still awaits its POST (real mark_job_started), so that CALL schedule_job afterwards finds the job Running
+            session = w.app['client_session']
+            fired = []
+
+            async def started_first(name, a, kw):
+                if name != 'post' or fired or not a or '/jobs/create' not in str(a[0]):
+                    return
+                body = kw.get('json') or {}
+                att = (body.get('job_spec') or {}).get('attempt_id')
+                inst = next((i for i in w.instances.values() if i.state == 'active' and f'//{i.ip_address}:' in str(a[0])), None)
+                if att is None or inst is None:
+                    return
+                fired.append(att)
+                try:
+                    await w.dj.mark_job_started(w.app, body['batch_id'], body['job_id'], att, inst, self.ts - 1, [])
+                except Exception as e:   # noqa: BLE001
+                    self.errors.append(f'job_started(in flight): {type(e).__name__}: {str(e)[:120]}')
+            session.hook = started_first
+            try:
+                w.run(self._safe('scheduler', self.scheduler.schedule_loop_body()))
+            finally:
+                session.hook = None
+            if fired:
+                self.started_in_flight += 1
+        elif k == 'J':
+            # the job-private path for every Ready, runnable job-private job of a running group: a fresh job-private instance, the real
+            # mark_job_creating on the pending instance, activation, schedule_job (a<sub> = stop after that step: a = activation never
+            # happens and the instance times out, i.e. it is deactivated while still pending)
+            T = w.db.tables
+            gstate = {(g['batch_id'], g['job_group_id']): g['state'] for g in T['job_groups']}
+            v = self.view()
+            for j in list(T['jobs']):
+                if j['state'] == 'Ready' and j['inst_coll'] == 'job-private' and gstate.get((j['batch_id'], j['job_group_id'])) == 'running' \
+                        and (j['always_run'] or not v.marked(j)):
+                    self.next_inst += 1
+                    n, att = self.next_inst, self.next_att
+                    self.next_att += 1
+                    cores = max(1000, j['cores_mcpu'])
+                    w.apply(f'newInstance {n} {cores} 0')
+                    w.apply(f'creating {j["batch_id"]} {j["job_id"]} {att} {n} {self.ts} 0')
+                    if a[1:] == 'timeout':
+                        w.apply(f'deactivate {n} activation_timeout {self.ts + 1} 0')
+                        self.jp_timeouts += 1
+                        continue
+                    w.apply(f'activate {n}')
+                    w.apply(f'schedule {j["batch_id"]} {j["job_id"]} {att} {n}')
+                    self.jp_scheduled += 1
         elif k == 'X':
             # a second attempt of a Running job reports job_started (schedule_job posted the job to a worker, its procedure call was lost and
             # the job was scheduled again): the real mark_job_started records it as a non-current attempt = an orphan for loop O
@@ -188,7 +245,7 @@ class Actors:
         """fair completion: every loop runs, every Running job finishes successfully; until nothing changes"""
         for r in range(max_rounds):
             before = repr(self.w.db.dump(["jobs", "attempts", "job_groups", "batches", "instances", "job_groups_cancelled"]))
-            for a in ('S', 'R', 'U', 'O'):
+            for a in ('S', 'J', 'R', 'U', 'O'):
                 self.step(a)
             for _ in range(len(self.running_jobs()) + 1):
                 self.step('WSuccess')
@@ -237,6 +294,50 @@ def transition_safety(p: View, v: View) -> Optional[Tuple[str, str]]:
     return abandoned_attempt(p, v)
 
 
+def dependencies(v: View) -> Optional[Tuple[str, str]]:
+    """C05 on the tables, for committed jobs with well-formed parents: not Pending => every parent terminal; a parent that did not
+    succeed => the child is marked cancelled and, unless always_run, has not run; an always_run child is never Cancelled"""
+    for k, j in v.jobs.items():
+        if not v.committed(j['batch_id'], j['update_id']):
+            continue
+        ps = [v.jobs.get((k[0], p)) for p in v.parents.get(k, [])]
+        if any(p is None for p in ps):
+            continue
+        live = [p for p in ps if p['state'] not in TERMINAL]
+        if j['state'] != 'Pending' and live:
+            return ('job-left-pending-before-parents-finished', f'job {k} is {j["state"]} although its parent {live[0]["job_id"]} is {live[0]["state"]}')
+        if not live and any(p['state'] != 'Success' for p in ps) and ps:
+            if not j['cancelled']:
+                return ('child-of-failed-parent-not-marked-cancelled', f'job {k}: a parent did not succeed but cancelled = 0')
+            if not j['always_run'] and j['state'] in ('Creating', 'Running', 'Success', 'Failed', 'Error'):
+                return ('cancelled-child-ran', f'job {k} (always_run = 0) has a parent that did not succeed and is {j["state"]}')
+        if j['always_run'] and j['state'] == 'Cancelled':
+            return ('always-run-job-cancelled', f'always_run job {k} was marked Cancelled: it must run whatever its parents\' outcomes '
+                                                f'(parents {[(p["job_id"], p["state"]) for p in ps]})')
+    return None
+
+
+def free_cores(w, v: View) -> Optional[Tuple[str, str]]:
+    """C10 after a whole actor step: for every instance, the database row and the driver's in-memory Instance.free_cores_mcpu equal
+    total cores minus the cores of the un-ended attempts placed on it (live instance) / all cores (inactive)"""
+    used: Dict[str, int] = {}
+    for a in v.attempts.values():
+        if a['end_time'] is None and a['instance_name'] is not None:
+            j = v.jobs.get((a['batch_id'], a['job_id']))
+            used[a['instance_name']] = used.get(a['instance_name'], 0) + (j['cores_mcpu'] if j else 0)
+    for name, inst in v.instances.items():
+        free = v.free.get(name)
+        want = inst['cores_mcpu'] - used.get(name, 0) if inst['state'] in ('pending', 'active') else inst['cores_mcpu']
+        if free != want:
+            cls = 'pending-instance-cores-not-released' if inst['state'] == 'pending' and free < want else f'{inst["state"]}-instance-free-cores-differ'
+            return (cls, f'instance {name} ({inst["state"]}, {inst["cores_mcpu"]} mcpu): database free_cores_mcpu = {free}, expected {want}')
+        mem = w.instances.get(name)
+        if mem is not None and mem.state == inst['state'] and mem.state in ('pending', 'active', 'inactive') and mem.free_cores_mcpu != free:
+            return ('in-memory-mirror-differs:' + inst['state'], f'Instance {name} ({inst["state"]}): in-memory free_cores_mcpu = '
+                                                                f'{mem.free_cores_mcpu}, database {free}, total minus un-ended attempts {want}')
+    return None
+
+
 def liveness(v: View, ran: Dict[Tuple[int, int], bool]) -> Optional[Tuple[str, str]]:
     for k, j in v.jobs.items():
         if not v.committed(j['batch_id'], j['update_id']):
@@ -260,3 +361,75 @@ def liveness(v: View, ran: Dict[Tuple[int, int], bool]) -> Optional[Tuple[str, s
             return ('orphan-attempt-survives-quiescence', f'attempt {a["attempt_id"]} of job {(a["batch_id"], a["job_id"])} is still open on active '
                                                           f'instance {a["instance_name"]}')
     return None
+
+
+def run_actor_case(repo, c, step_checks, final_checks=()):
+    """a submission prefix (protocol ops, compared with the Lean model by the caller) + the actor script + a fair run to quiescence;
+    `step_checks`: functions (world, before: View, after: View) -> Optional[(class, message)] evaluated after every actor step and
+    after every step of the quiescence run; `final_checks`: functions (world, view) evaluated at quiescence"""
+    from .prop import RunResult
+    from .world import World
+    res = RunResult()
+    w = World(0, repo)
+    try:
+        res.lines.append('ok')
+        accepted = True
+        for i, op in enumerate(c['ops']):
+            ans = w.apply(op)
+            res.lines.append(ans)
+            res.lines.append(w.dump())
+            res.n_ops = i + 1
+            if op.startswith('commit') and ans != 'ok 0':
+                accepted = False
+        if not accepted:
+            res.tags.append('prefix-with-refused-request')
+            return res
+        act = Actors(w, random.Random(c.get('aseed', 0)))
+        fail = None
+
+        def checked_step(a):
+            nonlocal fail
+            before = act.view()
+            orig_step(a)
+            after = act.view()
+            if fail is None:
+                for chk in step_checks:
+                    f = chk(w, before, after)
+                    if f:
+                        fail = (f[0], f'after actor step {a!r} (steps so far {act.log}): {f[1]}')
+                        break
+        orig_step = act.step
+        for a in c.get('actors', []):
+            checked_step(a)
+            if fail:
+                break
+        if fail is None:
+            act.step = checked_step           # the quiescence run is checked step by step as well
+            rounds = act.quiesce()
+            act.step = orig_step
+            if fail is None:
+                v = act.view()
+                for chk in final_checks:
+                    f = chk(w, v)
+                    if f:
+                        fail = (f[0], f'after script {c.get("actors")} and {rounds} fair rounds: {f[1]}')
+                        break
+        for t, cond in (('cancel', any(a.startswith('C') for a in act.log)), ('preemption', 'F' in act.log),
+                        ('scheduled-by-real-scheduler', any(x['instance_name'] for x in w.db.tables['attempts'])),
+                        ('instance-preempted-while-job-in-flight', act.preempted_in_flight > 0),
+                        ('job-started-while-schedule_job-in-flight', act.started_in_flight > 0),
+                        ('job-private-path', act.jp_scheduled > 0), ('job-private-activation-timeout', act.jp_timeouts > 0),
+                        ('canceller-ready-loop-ran', 'R' in act.log),
+                        ('failed-parent', any(j['state'] in ('Failed', 'Error') and (j['batch_id'], j['job_id']) in act.view().children
+                                              for j in w.db.tables['jobs'])),
+                        ('always-run-child-of-failed-parent', any(
+                            j['always_run'] and j['cancelled'] for j in w.db.tables['jobs']))):
+            if cond:
+                res.tags.append(t)
+        for e in sorted(set(x.split(':')[0] for x in act.errors)):
+            res.tags.append('loop-error:' + e)
+        if fail:
+            res.failure = (max(res.n_ops - 1, 0), fail[0], fail[1])
+    finally:
+        w.close()
+    return res
